@@ -263,6 +263,9 @@ class C15(framework.PropertyCheck):
             ("(defmacro m9 args `(list ,@(rest args) ',(first args)))", f'(m9 (undefined-fn 1) {pr("a", V)} 3)'),
             ("(defmacro m9 [p] (let ([t (gensym)]) `(let ([,t ,p]) (+ ,t ,t))))", f'(m9 {pr("p", V)})'),
             ("(defmacro m9 [c p] `(if ,c ,p (m8 ,p)))", f'(m9 (< {V} 1) {pr("p", "x")})'),
+            # an expansion may be a literal: the call then is that literal
+            ("(defmacro m9 [] 5)", '(m9)', '5'),
+            ("(defmacro m9 [p] (if (list? p) \"l\" #t))", f'(list (m9 (a b)) (m9 {V}))', '(list "l" #t)'),
             # operands that a constant folder could rewrite reach the macro as written, in the call and in macroexpand alike
             ("(defmacro m9 [p q] `(list ',p ,q ,q))", '(m9 (+ 1 2) (* 2 3))'),
             ("(defmacro m9 [p] `',p)", '(m9 (if 1 a b))', "'(if 1 a b)"),
